@@ -30,10 +30,10 @@
 (*   "earlycall"   the provider is called before the property validation   *)
 (*   "setupfirst"  post_register_setup runs before the registry is updated *)
 (*   "setuponfail" post_register_setup also runs when registration fails   *)
-(*   "swallowerr"  a CIMError of the provider is mapped to CIM_ERR_FAILED..*)
-(*                 no: is dropped, the default implementation runs instead *)
+(*   "swallowerr"  a CIMError raised by the provider is dropped and the      *)
+(*                 default implementation runs instead                     *)
 (***************************************************************************)
-EXTENDS ProvDispatch, FiniteSetsExt
+EXTENDS ProvDispatch, SequencesExt
 
 CONSTANTS NsArgFormatBug, ClassnamesAssert, OutOnlyUnchecked, Variant
 
